@@ -358,6 +358,69 @@ def run(F, rep, tier):
                 rep.viol('R3.4', d + '|driver', 'section driver does not drive ChainEvaluator new/give/finish', db.loc(0))
     else:
         rep.viol('R3.4', 'ChainSection|driver', 'no second driver of ChainEvaluator (ChainSection application) found', None)
+    # the leading blank takes the FIRST argument: nothing consumes call arguments for a later operand before the seed is known
+    for d in drivers:
+        db = F.body(d)
+        news = [c for c in db.calls if c.target == 'eval::ChainEvaluator::new']
+        if not news:
+            continue
+        # closures of the driver that pull from the argument iterator
+        def pulls(body_):
+            return [c for c in body_.calls if c.target.endswith('::next') and 'IntoIter' in c.target and 'core::Obj' in str(c.callee.get('g'))]
+        pull_closures = {cl for cl in F.closures_of(d) if pulls(F.body(cl))}
+        cl_locals = {s_[1][0] for bb, s_ in db.aggregates() if s_[2][1] == 'closure' and s_[2][2] in pull_closures}
+        def aliases(base):
+            al = set(base)
+            ch = True
+            while ch:
+                ch = False
+                for bb_ in db.reach:
+                    for st in db.stmts(bb_):
+                        if st[0] == 'a' and len(st[1]) == 1 and st[1][0] not in al:
+                            rv = st[2]
+                            src = None
+                            if rv[0] == 'ref' and rv[2]:
+                                src = rv[2][0]
+                            elif rv[0] == 'use' and rv[1][0] in ('m', 'c') and rv[1][1]:
+                                src = rv[1][1][0]
+                            if src in al:
+                                al.add(st[1][0])
+                                ch = True
+            return al
+        grew = True
+        while grew:                      # closures that capture (a reference to) a pulling closure pull as well
+            grew = False
+            al = aliases(cl_locals)
+            for bb, s_ in db.aggregates():
+                if s_[2][1] == 'closure' and s_[1][0] not in cl_locals:
+                    if any(o[0] in ('m', 'c') and o[1] and o[1][0] in al for o in s_[2][5]):
+                        cl_locals.add(s_[1][0])
+                        grew = True
+        cl_locals = aliases(cl_locals)
+        consumers = list(pulls(db))
+        for c in db.calls:
+            if any(a[0] in ('m', 'c') and a[1] and a[1][0] in cl_locals for a in c.args):
+                consumers.append(c)
+        bad3 = []
+        for nw in news:
+            regn_ = [c for c in consumers if c.bb in db.reachable_from(0)]
+            seed_src = {o[1] for o in origins(db, nw.args[0], passthru=('branch', 'clone')) if o[0] == 'call'}
+            for c in regn_:
+                same_arm = db.reachable_from(c.bb) & {nw.bb} or db.reachable_from(nw.bb) & {c.bb}
+                if not same_arm:
+                    continue
+                if db.dominates(nw.bb, c.bb):
+                    continue
+                # before `new`: allowed only if it is the pull that produces the seed itself
+                if nw.bb not in db.reachable_from(c.bb):
+                    continue            # after / beside `new` on another path: not an earlier pull
+                feeds = c.target in seed_src
+                if not feeds:
+                    bad3.append(c)
+        if bad3:
+            rep.viol('R3.4', d + '|section-argument-order', 'applying a chain section consumes call arguments for later operands before the leading operand is filled (%s precedes ChainEvaluator::new): `(_ - _)(10, 3)` computes 3 - 10' % bad3[0].target.rsplit('::', 1)[-1], bad3[0].loc())
+        else:
+            rep.ok('R3.4', 'section argument order in %s' % d, 'the seed is filled first; %d argument pull site(s)' % len(consumers))
     # sibling skeleton
     def skeleton(fn):
         b = F.body(fn)
